@@ -11,7 +11,7 @@
   Every theorem quantifies over EVERY `argsort` routine satisfying `IsArgsort` (a permutation of
   `range n` that sorts the keys; ties arbitrary) — numpy's unstable introsort included.
 -/
-import FcProofs.Lemmas.LexsortRelabel
+import FcProofs.Lemmas.LexsortRigid
 namespace Fc
 open Fc.C02 Fc.C02.Spec
 
@@ -316,14 +316,14 @@ theorem C02_canonical_cells {as1 as2 : List Int → List Nat} (h1 : IsArgsort as
 theorem C02_ladder_first_passing_rung (asS asR : List Int → List Nat) (h : List Nat → Int)
     (srcF refF : MeshFields) (hdim : srcF.mesh.dim = refF.mesh.dim) :
     ladder asS asR h {} srcF refF =
-      if (runComparison ⟨srcF, meshTolOf srcF.mesh, false⟩ ⟨refF, meshTolOf refF.mesh, false⟩).domainEq then
-        .done 0 (runComparison ⟨srcF, meshTolOf srcF.mesh, false⟩ ⟨refF, meshTolOf refF.mesh, false⟩)
+      if (C02.runComparison ⟨srcF, meshTolOf srcF.mesh, false⟩ ⟨refF, meshTolOf refF.mesh, false⟩).domainEq then
+        .done 0 (C02.runComparison ⟨srcF, meshTolOf srcF.mesh, false⟩ ⟨refF, meshTolOf refF.mesh, false⟩)
       else
       match permuteSide asS {} ⟨srcF, meshTolOf srcF.mesh, false⟩,
             permuteSide asR {} ⟨refF, meshTolOf refF.mesh, false⟩ with
       | some s2, some r2 =>
-        if (runComparison s2 r2).domainEq then .done 2 (runComparison s2 r2) else
-        .done 3 (runComparison { s2 with f := sortCells asS h s2.f } { r2 with f := sortCells asR h r2.f })
+        if (C02.runComparison s2 r2).domainEq then .done 2 (C02.runComparison s2 r2) else
+        .done 3 (C02.runComparison { s2 with f := C02.sortCells asS h s2.f } { r2 with f := C02.sortCells asR h r2.f })
       | _, _ => .raised :=
   ladder_default_cases asS asR h srcF refF hdim
 
@@ -332,7 +332,7 @@ theorem C02_ladder_first_passing_rung (asS asR : List Int → List Nat) (h : Lis
     of `DefaultEquality` on finite values of every modelled dtype. -/
 theorem C02_compare_self_passes (f : MeshFields) (t1 t2 : MeshTol) (p1 p2 : Bool)
     (hnd : (f.mesh.cells.map (·.1)).Nodup) :
-    allPassed (runComparison ⟨f, t1, p1⟩ ⟨f, t2, p2⟩) = true :=
+    allPassed (C02.runComparison ⟨f, t1, p1⟩ ⟨f, t2, p2⟩) = true :=
   runComparison_self f t1 t2 p1 p2 hnd
 
 /-- **C02_no_false_fail (partial).**
@@ -358,27 +358,231 @@ theorem C02_no_false_fail_partial {asS asR : List Int → List Nat} (hS : IsArgs
     (hyR : PointHypP (meshTolOf refF.mesh) A2 B2 M2 (stripOrphans asR refF).mesh c2)
     (hcanon : ∀ s2 r2, permuteSide asS {} ⟨srcF, meshTolOf srcF.mesh, false⟩ = some s2 →
       permuteSide asR {} ⟨refF, meshTolOf refF.mesh, false⟩ = some r2 →
-      sortCells asS h s2.f = sortCells asR h r2.f ∧ ((sortCells asS h s2.f).mesh.cells.map (·.1)).Nodup)
-    (hearly0 : (runComparison ⟨srcF, meshTolOf srcF.mesh, false⟩ ⟨refF, meshTolOf refF.mesh, false⟩).domainEq = true →
-      allPassed (runComparison ⟨srcF, meshTolOf srcF.mesh, false⟩ ⟨refF, meshTolOf refF.mesh, false⟩) = true)
+      C02.sortCells asS h s2.f = C02.sortCells asR h r2.f ∧ ((C02.sortCells asS h s2.f).mesh.cells.map (·.1)).Nodup)
+    (hearly0 : (C02.runComparison ⟨srcF, meshTolOf srcF.mesh, false⟩ ⟨refF, meshTolOf refF.mesh, false⟩).domainEq = true →
+      allPassed (C02.runComparison ⟨srcF, meshTolOf srcF.mesh, false⟩ ⟨refF, meshTolOf refF.mesh, false⟩) = true)
     (hearly2 : ∀ s2 r2, permuteSide asS {} ⟨srcF, meshTolOf srcF.mesh, false⟩ = some s2 →
       permuteSide asR {} ⟨refF, meshTolOf refF.mesh, false⟩ = some r2 →
-      (runComparison s2 r2).domainEq = true → allPassed (runComparison s2 r2) = true) :
+      (C02.runComparison s2 r2).domainEq = true → allPassed (C02.runComparison s2 r2) = true) :
     ladderPasses (ladder asS asR h {} srcF refF) = true := by
   rw [ladder_default_cases asS asR h srcF refF hdim]
   simp only
   obtain ⟨s2, es⟩ := permuteSide_isSome hS ⟨srcF, meshTolOf srcF.mesh, false⟩ hyS
   obtain ⟨r2, er⟩ := permuteSide_isSome hR ⟨refF, meshTolOf refF.mesh, false⟩ hyR
-  by_cases h0 : (runComparison ⟨srcF, meshTolOf srcF.mesh, false⟩ ⟨refF, meshTolOf refF.mesh, false⟩).domainEq = true
+  by_cases h0 : (C02.runComparison ⟨srcF, meshTolOf srcF.mesh, false⟩ ⟨refF, meshTolOf refF.mesh, false⟩).domainEq = true
   · simp only [h0, if_true, ladderPasses]
     exact hearly0 h0
   · simp only [h0, Bool.false_eq_true, if_false, es, er]
-    by_cases h2 : (runComparison s2 r2).domainEq = true
+    by_cases h2 : (C02.runComparison s2 r2).domainEq = true
     · simp only [h2, if_true, ladderPasses]
       exact hearly2 s2 r2 es er h2
     · simp only [h2, Bool.false_eq_true, if_false, ladderPasses]
       obtain ⟨hc, hnd⟩ := hcanon s2 r2 es er
       rw [← hc]
       exact runComparison_self _ _ _ _ _ hnd
+
+/-! ## phase 2: relabelled data sets (`Spec.relabelF`), noise-free -/
+
+/-- **The index map of `strip_orphan_points`, for EVERY `argsort`** (numpy's default is not stable):
+    `_unconnected_points_filter_map` is injective and enumerates exactly the points some cell
+    references — in an order that depends on the tie-breaking.  (This is why even a mesh without
+    orphan points enters `sort_points` in an arbitrary point order.) -/
+theorem C02_strip_map {as : List Int → List Nat} (has : IsArgsort as) (m : Mesh) :
+    (C02.unconnectedFilterMap as m).Nodup ∧
+    ∀ p, p ∈ C02.unconnectedFilterMap as m ↔ (p < m.points.length ∧ m.connected p = true) :=
+  stripMap_spec has m
+
+/-- **A data set is the trivial relabelling of itself** (identity point map, identity cell maps). -/
+theorem C02_relabel_id {f : MeshFields} (hwf : f.wf2 = true) :
+    relabelF (List.range f.mesh.points.length) (idCellMaps f) f = f :=
+  relabelF_id (wf2_WFP f hwf)
+
+/-- **The hypotheses of the point sort are invariant under relabelling**: `PointHypP` (Sep for the
+    coordinates and the candidate centres, finite adjacent centres of coincident points) carries over
+    from a mesh to every index-level relabelled copy, with the same margins and candidate centres. -/
+theorem C02_hyp_relabel_invariant {m1 m2 : Mesh} {ρ : List Nat} (hrel : Relabeled m1 m2 ρ) {t : MeshTol}
+    {A B M : Nat} {c : List (List Int)} (hy : PointHypP t A B M m1 c) : PointHypP t A B M m2 c :=
+  hrel.pointHypP hy
+
+/-- **Soundness of the decidable hypothesis on one data set.**  `Spec.baseHyp h f = true` (well-formed,
+    one block per type, a connected point exists, `pointHyp` = Sep ∧ Distinguishable of the stripped
+    mesh, `h` separates the cells of the point-sorted view) implies the Prop-level `BaseHyp` the
+    theorems below assume — with the margins `sepA`/`sepB` of the tolerances of `f`. -/
+theorem C02_base_hyp_sound {h : List Nat → Int} {f : MeshFields} (hb : baseHyp h f = true) :
+    BaseHyp h f (sepA (meshTolOf f.mesh)) (sepB (meshTolOf f.mesh))
+      (pointData (sepA (meshTolOf f.mesh)) (baseOf f).mesh).M
+      (pointData (sepA (meshTolOf f.mesh)) (baseOf f).mesh).cands :=
+  baseHyp_sound hb
+
+/-- **`sort_points ∘ strip_orphan_points` of a relabelled data set** (`BaseHyp` = WellFormed ∧ Sep ∧
+    Distinguishable of the ONE underlying data set `f`): for every `argsort`, every point permutation
+    `ρ` and all per-type cell permutations `κ`, `_permute` does not raise and returns `f` with its
+    connected points in ONE order `J` that depends on `f` only (`J = τ0[I0]`: connected points
+    ascending, then the index map of the stable argsort) and its cells still in the order `κ` —
+    coordinates, renumbered connectivity AND all field arrays. -/
+theorem C02_permute_relabelled {as : List Int → List Nat} (has : IsArgsort as) {h : List Nat → Int}
+    {f : MeshFields} {A B M : Nat} {c : List (List Int)} (bh : BaseHyp h f A B M c)
+    {ρ : List Nat} {κ : String → List Nat} (hρ : ρ.Perm (List.range f.mesh.points.length))
+    (hκ : CellMapsOk f κ) :
+    ∃ I0, sortPointsIdx argsortStable (meshTolOf f.mesh) (baseOf f).mesh = some I0 ∧
+      permuteSide as {} ⟨relabelF ρ κ f, meshTolOf (relabelF ρ κ f).mesh, false⟩ =
+        some ⟨applyCellMaps (pointSorted f I0) κ, meshTolOf (relabelF ρ κ f).mesh, true⟩ := by
+  obtain ⟨I0, h1, _, h3⟩ := permuteSide_relabelF has bh hρ hκ
+  exact ⟨I0, h1, h3⟩
+
+/-- **C02_sort_canonical — `sort(relabel A) = sort(A)`, as complete data sets.**  Two relabellings of
+    the same data set (any point permutations, any per-type cell permutations), sorted by
+    `sort = sort_cells ∘ sort_points ∘ strip_orphan_points` with two arbitrary `argsort` routines:
+    both sorts succeed and return the IDENTICAL `MeshFields` — points, connectivity, point-field and
+    cell-field arrays.  (This is `hcanon` of `C02_no_false_fail_partial`, now a theorem; it uses
+    `C02_canonical_points` via `sortPoints_canonical_geom`, `C02_canonical_cells`, and the index-map
+    algebra of `PermutedMesh`/`TransformedMeshFields`, whose array part re-uses C08's lemmas.) -/
+theorem C02_sort_canonical {as1 as2 : List Int → List Nat} (h1 : IsArgsort as1) (h2 : IsArgsort as2)
+    {h : List Nat → Int} {f : MeshFields} {A B M : Nat} {c : List (List Int)} (bh : BaseHyp h f A B M c)
+    {ρ1 ρ2 : List Nat} {κ1 κ2 : String → List Nat}
+    (hρ1 : ρ1.Perm (List.range f.mesh.points.length)) (hρ2 : ρ2.Perm (List.range f.mesh.points.length))
+    (hκ1 : CellMapsOk f κ1) (hκ2 : CellMapsOk f κ2) :
+    ∃ S, sortMesh as1 h (meshTolOf (relabelF ρ1 κ1 f).mesh) (relabelF ρ1 κ1 f) = some S ∧
+         sortMesh as2 h (meshTolOf (relabelF ρ2 κ2 f).mesh) (relabelF ρ2 κ2 f) = some S := by
+  obtain ⟨I0, hI0, e1⟩ := sortPoints_relabelF h1 bh hρ1 hκ1
+  obtain ⟨I0', hI0', e2⟩ := sortPoints_relabelF h2 bh hρ2 hκ2
+  rw [hI0] at hI0'
+  cases hI0'
+  refine ⟨C02.sortCells argsortStable h (pointSorted f I0), ?_, ?_⟩
+  · unfold sortMesh
+    rw [e1, Option.map_some, sorted_relabelF h1 isArgsort_stable bh hκ1 hI0]
+  · unfold sortMesh
+    rw [e2, Option.map_some, sorted_relabelF h2 isArgsort_stable bh hκ2 hI0]
+
+/-- **C02_no_false_fail for two relabellings of one data set (noise-free; partial).**
+    `BaseHyp h f` (WellFormed ∧ Sep ∧ Distinguishable ∧ hash separates the cells) ⇒ the default
+    comparator on `(relabel ρ₁ κ₁ f, relabel ρ₂ κ₂ f)`, for every pair of `argsort` routines, ends with
+    equal domains and every field `passed`.  Compared with `C02_no_false_fail_partial`: `hcanon` and
+    `hearly2` are PROVED, `hyS`/`hyR` are derived from the hypotheses on `f`, and `hearly0` is reduced to
+      `hrigid`  if `mesh_equal` accepts the two stored meshes AS THEY ARE, the two point orders agree
+    (then the cell orders agree as well — proved — and the fields are compared with themselves).
+    MISSING: `hrigid` from Sep ∧ Distinguishable (a fuzzy automorphism of the mesh fixes every
+    distinguishable point; needs a rounding-error bound for cell centres whose corners are listed in
+    another order).  It is proved when no two points coincide: `C02_no_false_fail_continuous`. -/
+theorem C02_no_false_fail_relabelled_pair_partial {asS asR : List Int → List Nat} (hS : IsArgsort asS)
+    (hR : IsArgsort asR) {h : List Nat → Int} {f : MeshFields} {A B M : Nat} {c : List (List Int)}
+    (bh : BaseHyp h f A B M c) {ρ1 ρ2 : List Nat} {κ1 κ2 : String → List Nat}
+    (hρ1 : ρ1.Perm (List.range f.mesh.points.length)) (hρ2 : ρ2.Perm (List.range f.mesh.points.length))
+    (hκ1 : CellMapsOk f κ1) (hκ2 : CellMapsOk f κ2)
+    (hrigid : meshEqual (meshTolOf f.mesh) (relabelF ρ1 κ1 f).mesh (relabelF ρ2 κ2 f).mesh = true → ρ1 = ρ2) :
+    ladderPasses (ladder asS asR h {} (relabelF ρ1 κ1 f) (relabelF ρ2 κ2 f)) = true := by
+  obtain ⟨I0, hI0, hyS, eS⟩ := permuteSide_relabelF hS bh hρ1 hκ1
+  obtain ⟨I0', hI0', hyR, eR⟩ := permuteSide_relabelF hR bh hρ2 hκ2
+  rw [hI0] at hI0'
+  cases hI0'
+  have hch := bh.cellHyp hI0
+  refine C02_no_false_fail_partial hS hR h _ _ rfl hyS hyR ?_ ?_ ?_
+  · -- hcanon
+    intro s2 r2 es er
+    rw [eS] at es
+    rw [eR] at er
+    cases es
+    cases er
+    refine ⟨?_, ?_⟩
+    · show C02.sortCells asS h (applyCellMaps (pointSorted f I0) κ1) =
+        C02.sortCells asR h (applyCellMaps (pointSorted f I0) κ2)
+      rw [sorted_relabelF hS isArgsort_stable bh hκ1 hI0, sorted_relabelF hR isArgsort_stable bh hκ2 hI0]
+    · show (C02.sortCells asS h (applyCellMaps (pointSorted f I0) κ1)).mesh.cellTypes.Nodup
+      unfold C02.sortCells
+      rw [cellTypes_applyCellMaps, cellTypes_applyCellMaps]
+      exact hch.types
+  · -- hearly0
+    intro hd
+    have heq := (domainEq_iff _ _).mp hd
+    have htol : ∀ t : MeshTol, (⟨min t.atol t.atol, min t.rtol t.rtol⟩ : MeshTol) = t := by
+      intro t; cases t; simp
+    simp only [meshTolOf_relabelF κ1 hρ1, meshTolOf_relabelF κ2 hρ2, Bool.false_eq_true, if_false,
+      htol] at heq
+    have hρ := hrigid heq
+    subst hρ
+    have hcov := covers_of_perm bh.wf hρ1
+    exact runComparison_views (s := applyPointMap f ρ1) (by rw [cellTypes_applyPointMap]; exact bh.wf.types)
+      (bh.vertexSets hcov) (hκ1.pointMap _) (hκ2.pointMap _) _ _ _ _ hd
+  · -- hearly2
+    intro s2 r2 es er hd
+    rw [eS] at es
+    rw [eR] at er
+    cases es
+    cases er
+    exact runComparison_views hch.types hch.vertexSets (hκ1.pointMap _) (hκ2.pointMap _) _ _ _ _ hd
+
+/-- **C02_no_false_fail, noise-free, either role (partial: `hrigid`).**  `BaseHyp h f` ⇒ the default
+    comparator on `(relabel ρ κ f, f)` AND on `(f, relabel ρ κ f)` ends with equal domains and every
+    field `passed`, for every pair of `argsort` routines — provided that, whenever `mesh_equal` accepts
+    the relabelled mesh against the original as stored, `ρ` is the identity (`hrigid`, see
+    `C02_no_false_fail_relabelled_pair_partial`).  No `hcanon`, no `hearly2`. -/
+theorem C02_no_false_fail_noise_free_partial {asS asR : List Int → List Nat} (hS : IsArgsort asS)
+    (hR : IsArgsort asR) {h : List Nat → Int} {f : MeshFields} {A B M : Nat} {c : List (List Int)}
+    (bh : BaseHyp h f A B M c) {ρ : List Nat} {κ : String → List Nat}
+    (hρ : ρ.Perm (List.range f.mesh.points.length)) (hκ : CellMapsOk f κ)
+    (hrigid1 : meshEqual (meshTolOf f.mesh) (relabelF ρ κ f).mesh f.mesh = true →
+      ρ = List.range f.mesh.points.length)
+    (hrigid2 : meshEqual (meshTolOf f.mesh) f.mesh (relabelF ρ κ f).mesh = true →
+      List.range f.mesh.points.length = ρ) :
+    ladderPasses (ladder asS asR h {} (relabelF ρ κ f) f) = true ∧
+    ladderPasses (ladder asS asR h {} f (relabelF ρ κ f)) = true := by
+  have hid := relabelF_id bh.wf
+  have hρ0 : (List.range f.mesh.points.length).Perm (List.range f.mesh.points.length) := List.Perm.refl _
+  constructor
+  · have := C02_no_false_fail_relabelled_pair_partial hS hR bh hρ hρ0 hκ (idCellMaps_ok f)
+      (by rw [hid]; exact hrigid1)
+    rwa [hid] at this
+  · have := C02_no_false_fail_relabelled_pair_partial hS hR bh hρ0 hρ (idCellMaps_ok f) hκ
+      (by rw [hid]; exact hrigid2)
+    rwa [hid] at this
+
+/-- **Rigidity without coincident points** (`hrigid` proved for this class).  `Sep` of ALL coordinate
+    columns of `f` as stored (orphans included) and pairwise distinct coordinate key vectors: if
+    `mesh_equal` (any tolerances `t` for which `Sep` holds) accepts two relabellings of `f` as they are
+    stored, the two point orders are the same list — `fuzzy_equal` on the flattened point arrays is,
+    entry by entry, equality of cluster keys (`C02_sep_clusters`). -/
+theorem C02_rigid_without_coincident_points {f : MeshFields} (hwf : f.wf2 = true) {t : MeshTol} {A B M : Nat}
+    (hsep : SepCols t A B M pkey f.mesh.dim (pitems f.mesh))
+    (hdistinct : ∀ a ∈ pitems f.mesh, ∀ b ∈ pitems f.mesh,
+      kvec (KC A f.mesh) f.mesh.dim 0 a = kvec (KC A f.mesh) f.mesh.dim 0 b → a = b)
+    {ρ1 ρ2 : List Nat} {κ1 κ2 : String → List Nat}
+    (hρ1 : ρ1.Perm (List.range f.mesh.points.length)) (hρ2 : ρ2.Perm (List.range f.mesh.points.length))
+    (heq : meshEqual t (relabelF ρ1 κ1 f).mesh (relabelF ρ2 κ2 f).mesh = true) : ρ1 = ρ2 :=
+  rigid_of_distinct (wf2_WFP f hwf) hsep hdistinct hρ1 hρ2 heq
+
+/-- **C02_no_false_fail for data sets without coincident points (noise-free; NO extra assumption).**
+    `baseHyp h f` (well-formed ∧ Sep ∧ Distinguishable of the stripped mesh ∧ hash separates the cells)
+    and `continuousHyp f` (no two stored points coincide) — both decidable, both about the ONE data set
+    `f` — imply: for every point permutation `ρ`, all per-type cell permutations `κ` and every pair of
+    `argsort` routines the default comparator on `(relabel ρ κ f, f)` AND on `(f, relabel ρ κ f)` ends
+    with equal domains and every field `passed`.  (`hcanon`, `hearly0`, `hearly2` of
+    `C02_no_false_fail_partial` are all proved here.) -/
+theorem C02_no_false_fail_continuous {asS asR : List Int → List Nat} (hS : IsArgsort asS) (hR : IsArgsort asR)
+    {h : List Nat → Int} {f : MeshFields} (hb : baseHyp h f = true) (hc : continuousHyp f = true)
+    {ρ : List Nat} {κ : String → List Nat} (hρ : ρ.Perm (List.range f.mesh.points.length)) (hκ : CellMapsOk f κ) :
+    ladderPasses (ladder asS asR h {} (relabelF ρ κ f) f) = true ∧
+    ladderPasses (ladder asS asR h {} f (relabelF ρ κ f)) = true := by
+  have bh := baseHyp_sound hb
+  obtain ⟨hsep, hdist⟩ := continuousHyp_sound hc
+  have hid := relabelF_id bh.wf
+  refine C02_no_false_fail_noise_free_partial hS hR bh hρ hκ ?_ ?_
+  · intro heq
+    exact rigid_of_distinct bh.wf hsep hdist hρ (List.Perm.refl _)
+      (κ2 := idCellMaps f) (by rw [hid]; exact heq)
+  · intro heq
+    exact rigid_of_distinct bh.wf hsep hdist (List.Perm.refl _) hρ
+      (κ1 := idCellMaps f) (by rw [hid]; exact heq)
+
+/-- the same for two relabellings of one data set without coincident points -/
+theorem C02_no_false_fail_continuous_pair {asS asR : List Int → List Nat} (hS : IsArgsort asS)
+    (hR : IsArgsort asR) {h : List Nat → Int} {f : MeshFields} (hb : baseHyp h f = true)
+    (hc : continuousHyp f = true) {ρ1 ρ2 : List Nat} {κ1 κ2 : String → List Nat}
+    (hρ1 : ρ1.Perm (List.range f.mesh.points.length)) (hρ2 : ρ2.Perm (List.range f.mesh.points.length))
+    (hκ1 : CellMapsOk f κ1) (hκ2 : CellMapsOk f κ2) :
+    ladderPasses (ladder asS asR h {} (relabelF ρ1 κ1 f) (relabelF ρ2 κ2 f)) = true := by
+  have bh := baseHyp_sound hb
+  obtain ⟨hsep, hdist⟩ := continuousHyp_sound hc
+  exact C02_no_false_fail_relabelled_pair_partial hS hR bh hρ1 hρ2 hκ1 hκ2
+    (fun heq => rigid_of_distinct bh.wf hsep hdist hρ1 hρ2 heq)
 
 end Fc
